@@ -88,5 +88,9 @@ func zzTrigger(label string) models.ChfConvergedChargingTrigger {
 // available solvers within the time limits (see DESIGN.md); symbolic unit
 // costs are covered at server level by C08.
 func zzCostChoice() int64 {
-	return []int64{1, 2, 10, 333, 9999}[vx.Choice("cost", vx.Param("costs", 5))]
+	costs := []int64{1, 2, 10, 333, 9999}
+	if vx.Param("nshards", 1) == len(costs) {
+		return costs[vx.Param("shard", 0)] // one unit cost per shard
+	}
+	return costs[vx.Choice("cost", vx.Param("costs", 5))]
 }
